@@ -137,7 +137,7 @@ func (r *replayer) build(dir string) (string, string) {
 }
 
 // run replays one counterexample; ok = the failure reproduced natively.
-func (r *replayer) run(rr *replayRec, path string) (bool, string) {
+func (r *replayer) run(rr *replayRec, path string) (ok bool, out string) {
 	if r.modelReplay != nil {
 		if ok, out := r.modelReplay(rr); out != "" {
 			return ok, out
@@ -153,8 +153,14 @@ func (r *replayer) run(rr *replayRec, path string) (bool, string) {
 	if rr.Kind == "unreachable" || rr.Kind == "stall" {
 		attempts = 1
 	}
-	var ok bool
-	var out string
+	defer func() {
+		if !ok && r.modelReplay != nil && !rr.nativeFailed {
+			rr.nativeFailed = true
+			if mok, mout := r.modelReplay(rr); mout != "" {
+				ok, out = mok, out+" | "+mout
+			}
+		}
+	}()
 	for a := 0; a < attempts && !ok; a++ {
 		p := path
 		if a >= 2 {
